@@ -63,6 +63,9 @@ type format struct {
 	read  func([]byte) (*astisub.Subtitles, error)
 }
 
+// collect, when set, receives the hash of every distinct rendering (quick tier: exact distinct count)
+var collect func(uint64)
+
 var formats = []format{
 	{"srt", ms, 100 * hour, regexp.MustCompile(`(?m)^(\d{2,}):(\d\d):(\d\d),(\d+) --> (\d{2,}):(\d\d):(\d\d),(\d+)$`), 3,
 		func(s *astisub.Subtitles, b *bytes.Buffer) error { return s.WriteToSRT(b) },
@@ -138,6 +141,9 @@ func checkText(f format, inst []int64) (key, msg string, out uint64, distinct in
 			if str != prevStr {
 				distinct++
 				prevStr = str
+				if collect != nil {
+					collect(core.Hash64(f.name, str))
+				}
 			}
 			if prevInst >= 0 && t >= prevInst && val < prevVal {
 				return "ts." + f.name + ".not-monotone", fmt.Sprintf("instant %dns renders earlier than %dns", t, prevInst), 0, 0
@@ -219,6 +225,9 @@ func checkSTL(fps int, inst []int64) (key, msg string, out uint64, distinct int6
 			if [4]byte{f[0], f[1], f[2], f[3]} != prev {
 				distinct++
 				copy(prev[:], f)
+				if collect != nil {
+					collect(core.Hash64(tag, string(f)))
+				}
 			}
 			if prevInst >= 0 && t >= prevInst && whole+lo < prevVal {
 				return tag + ".not-monotone", fmt.Sprintf("instant %dns renders earlier than %dns", t, prevInst), 0, 0
@@ -311,6 +320,10 @@ func stlSources(tier core.Tier, fps int) []src {
 
 func run(c *core.Ctx) {
 	const batchN = 100000
+	if c.Tier == core.Quick {
+		collect = func(h uint64) { c.Nontrivial[h] = struct{}{} }
+		defer func() { collect = nil }()
+	}
 	for _, f := range formats {
 		for _, s := range sources(c.Tier, f.unit, f.limit) {
 			for i0 := int64(0); i0 < s.count(); i0 += batchN {
@@ -433,7 +446,7 @@ func replay(sub string, raw json.RawMessage) (string, bool) {
 func init() {
 	core.Register(&core.Prop{
 		ID: "C16", Level: "exploration",
-		Rule: "a case = one instant written as a cue boundary through the PUBLIC writer of a format (batches of 10^5 instants per document), its rendering extracted from the output by a grammar regexp / fixed TTI offsets, parsed by the harness, compared with floor(t/unit)*unit, read back through the public reader, written again and compared byte for byte; monotonicity along each sweep; evaluations = instants; non-trivial/distinct is counted per batch (distinct batches) and distinct renderings are reported per format in distinct_renderings_<fmt>",
+		Rule: "a case = one instant written as a cue boundary through the PUBLIC writer of a format (batches of 10^5 instants per document), its rendering extracted from the output by a grammar regexp / fixed TTI offsets, parsed by the harness, compared with floor(t/unit)*unit, read back through the public reader, written again and compared byte for byte; monotonicity along each sweep; evaluations = instants; distinct_nontrivial = distinct (format, rendered timestamp) pairs in the quick tier (exact set), distinct batches in the thorough tier where the set would not fit in memory - there the number of rendering changes along the monotone sweeps is reported per format in distinct_renderings_<fmt>",
 		Scope: map[core.Tier]string{
 			core.Quick:    "SRT/WebVTT/TTML (1ms) and SSA (10ms): every unit step of the first 20 min, +-2s around hours {1,9,10,23,24,99}, last 4s below 100h, ms/second/minute/hour boundaries +-1ns, SSA every 10ms+-1ns of the first 10 min; STL 25 and 30 fps: every frame boundary +-1ns of the first 10 min, +-2s around hours {1,9,10,23}, last 2s of the day; TTI fields and GSI TCF",
 			core.Thorough: "every millisecond of [0,24h) for SRT/WebVTT/TTML, every centisecond (+-1ns) for SSA, every frame boundary +-1ns of the whole day for STL at 25 and 30 fps, plus the quick extras",
